@@ -3,6 +3,7 @@ from __future__ import annotations
 
 import ast
 import json
+import re
 from typing import Dict, Set, Tuple
 
 from ..core import AnalysisError, CheckResult, Finding, Repo, func_params, norm
@@ -103,7 +104,9 @@ def facade_caches_agree(repo: Repo, res: CheckResult) -> None:
                         f"by {sorted(keys['get_dumper'][0])}: two types that one key conflates and the other distinguishes get one "
                         "shared loader but separate dumpers, so load(dump(x, T2), T2) runs the loader made for T1", keys["get_loader"][1]))
     for name, (ks, line) in keys.items():
-        if ks != {"<type>"}:
+        # the type hint may be accompanied by other components; it must not be replaced by something computed from it
+        projected = [k for k in ks if re.search(r"\w+\(<type>\)|<type>\.\w+", k)]
+        if projected:
             res.add(Finding("C01", "ROUNDTRIP.facade-memo-projects-type", m.rel, f"AdornedRetort.{name}", f"memo keyed by {sorted(ks)}",
                             f"the memo of {name} is keyed by {sorted(ks)}, not by the type hint itself: distinct types with the same "
                             "projection share one compiled function", line))
